@@ -22,7 +22,7 @@ From WK Require Import Base.Base.
 From WK Require Export Model.ReplicaLog Model.QuorumLog Model.Cluster.
 Open Scope N_scope.
 
-Record c02_state := C02State { cb_acked : list (N * N); cb_down : list N; cb_k1 : list (N * N); cb_k2 : list (N * N) }.
+Record c02_state := C02State { cb_acked : list (N * N); cb_down : list N; cb_k1 : list (N * N); cb_k2 : list (N * N); cb_max : authid }.
 
 Fixpoint acked_at2 (l : list (N * N)) (idx : N) : option N :=
   match l with
@@ -45,8 +45,11 @@ Definition c02_track (cfg : qconfig) (st : c02_state) (prev : list (N * robs))
       let leader := get_robs full node in
       let new := map (fun i => (i, obs_id_at leader i)) (seqN first (N.to_nat (last + 1 - first))) in
       C02State (filter (fun p => match acked_at2 (cb_acked st) (fst p) with Some _ => false | None => true end) new
-                ++ cb_acked st) (cb_down st) (cb_k1 st) (cb_k2 st)
-  | OInstall node _ _ _ f, RInstalled _ _ _ =>
+                ++ cb_acked st) (cb_down st) (cb_k1 st) (cb_k2 st) (cb_max st)
+  | OInstall node a _ _ f, RInstalled _ _ _ =>
+      match compareAuthorityID a (cb_max st) with
+      | Lt => st     (* a stale leader told its old authority again: not a failover (see Monitor_C01.v) *)
+      | _ =>
       let lost := filter (fun p => negb (holds2 full node p)) (cb_acked st) in
       let q := cf_quorum cfg in
       let frontier := node :: filter (fun w => negb (w =? node) && negb (memN w (cb_down st)) &&
@@ -58,9 +61,10 @@ Definition c02_track (cfg : qconfig) (st : c02_state) (prev : list (N * robs))
       let k1p (p : N * N) := countb2 (fun w => holds2 prev w p) frontier <? q in
       let k2p (p : N * N) := negb (k1p p) && guard && (countb2 (fun w => holds2 prev w p) stable <? q) in
       C02State (filter (fun p => holds2 full node p) (cb_acked st)) (cb_down st)
-               (filter k1p lost ++ cb_k1 st) (filter k2p lost ++ cb_k2 st)
-  | ODown node, _ => C02State (cb_acked st) (node :: filter (fun v => negb (v =? node)) (cb_down st)) (cb_k1 st) (cb_k2 st)
-  | OUp node, _ => C02State (cb_acked st) (filter (fun v => negb (v =? node)) (cb_down st)) (cb_k1 st) (cb_k2 st)
+               (filter k1p lost ++ cb_k1 st) (filter k2p lost ++ cb_k2 st) a
+      end
+  | ODown node, _ => C02State (cb_acked st) (node :: filter (fun v => negb (v =? node)) (cb_down st)) (cb_k1 st) (cb_k2 st) (cb_max st)
+  | OUp node, _ => C02State (cb_acked st) (filter (fun v => negb (v =? node)) (cb_down st)) (cb_k1 st) (cb_k2 st) (cb_max st)
   | _, _ => st
   end.
 
@@ -105,7 +109,7 @@ Fixpoint c02_run (cfg : qconfig) (tab : list ent) (st : c02_state) (prev : list 
   end.
 
 Definition c02_code (cfg : qconfig) (tab : list ent) (steps : list (qop * qres * list (N * robs))) : N :=
-  c02_run cfg tab (C02State [] [] [] []) [] steps.
+  c02_run cfg tab (C02State [] [] [] [] authid_zero) [] steps.
 
 Definition C02_mismatch : qcase -> bool := q_mismatch.
 Definition C02_monitor (c : qcase) : N := c02_code (cs_cfg c) (cs_tab c) (expand_steps [] (cs_steps c)).
